@@ -172,6 +172,13 @@ theorem slowRefreshB_iff (tr : Trace) : slowRefreshB tr = true ↔ SlowRefreshBo
 
 /-! ## statements about the model's own traces (used by the theorems) -/
 
+/-- what is known from outside about a module of the model -/
+def infoOf (m : Mod) : ModInfo := ⟨m.enabled, m.slow, m.polled, [(0, m.interval)]⟩
+
+/-- the observable trace of a model run that started in `σ` and made the calls `evs` -/
+def traceOf (σ : PollState) (evs : List Event) (loopStart tEnd eps : Nat) : Trace :=
+  { mods := σ.mods.map infoOf, evs := evs, touches := [], loopStart := loopStart, tEnd := tEnd, alive := true, eps := eps }
+
 /-- all consecutive distances of `ts` are at most `bound` -/
 def GapsLe (ts : List Nat) (bound : Nat) : Prop := ∀ ab ∈ pairs ts, ab.2 ≤ ab.1 + bound
 
